@@ -70,7 +70,9 @@ def setup(tier):
 
 
 def _n_strategy():
-    return st.one_of(st.sampled_from([0, 0, 0, 1, 1, 2, 3]), st.integers(0, 40), st.integers(0, 40), st.integers(0, 40), st.integers(41, 3000))
+    # mostly small; occasionally a column of more than 1 MiB in one file (writers that split large arrays into pieces)
+    return st.one_of(st.sampled_from([0, 0, 0, 1, 1, 2, 3]), st.integers(0, 40), st.integers(0, 40), st.integers(0, 40), st.integers(41, 3000),
+                     st.sampled_from([0, 1, 5, 30, 90000, 140001]))
 
 
 @st.composite
@@ -169,6 +171,8 @@ def classes(d):
         c.append('all requested columns empty')
     if any(d['files'][a]['n'][i] > 1024 for a in d['args'] for i in req):
         c.append('column > 1024 rows')
+    if any(n > 50000 for f in d['files'] for n in f['n']):
+        c.append('column > 1 MiB class (>50000 rows)')
     if len(set(d['args'])) < len(d['args']):
         c.append('same file twice')
     if len(set(d['request'])) < len(d['request']):
@@ -215,7 +219,7 @@ def _validate(d):
         for f in d['files']:
             if len(f['n']) != nf or sorted(f['order']) != list(range(nf)):
                 raise Reject('per-file lists do not match the columns')
-            if any(n < 0 or n > 20000 for n in f['n']):
+            if any(n < 0 or n > 200000 for n in f['n']):
                 raise Reject('length out of range')
         if any(not (0 <= a < len(d['files'])) for a in d['args']) or any(not (0 <= i < nf) for i in d['request']):
             raise Reject('index out of range')
